@@ -3,7 +3,7 @@
    (checkRangeRightBound returns the accumulated res; index bounds are never rewritten); Refuted.v shows that
    both deviations of today's code break them. *)
 From Coq Require Import ZArith List Bool Arith Sorted.
-From OG Require Import C20.Model C20.Proofs C20.Cover C20.ScanProofs C20.TwoSided C20.NullOrder.
+From OG Require Import C20.Model C20.Proofs C20.Cover C20.ScanProofs C20.TwoSided C20.NullOrder C20.MinMax.
 Import ListNotations.
 
 (* mark_sound: CheckInRange over a hyper-rectangle never says "cannot be true" when some row of the rectangle
@@ -137,6 +137,23 @@ Theorem C20_null_readings_agree_without_nulls : forall pads idx, Forall no_nulls
   read_index null_pad pads idx = read_index null_posinf pads idx.
 Proof. exact read_index_no_nulls. Qed.
 
+(* ---------- min-max skip index ----------
+   the rule: a block is read iff CheckInRange of the condition over the rectangle [min, max] of every indexed column
+   (non-null values; mm_rect) says canBeTrue. Sound for every block, every accepted condition tree, nulls anywhere.
+   (Today's tree cannot prune with it: MinMaxWriter writes nothing and the reader's ReadFunc is nil - a checked obligation
+   of props/C20/run.py; the harness drives the real CheckInRange over exactly these rectangles.) *)
+Theorem C20_minmax_sound : forall isint nonkey c rpn nk (block : list key) row,
+  compile isint c = Some rpn -> In row block -> eval_cond nonkey c row = true ->
+  exists m, check_in_range rpn (mm_rect nk block) = Some m /\ can_t m = true.
+Proof. exact minmax_sound. Qed.
+Print Assumptions C20_minmax_sound.
+
+(* a block with a matching value v in column c has min <= v <= max *)
+Theorem C20_minmax_bounds : forall block c row z, In row block -> nth c row None = Some z ->
+  exists a b, col_bounds (column block c) = Some (a, b) /\ (a <= z <= b)%Z.
+Proof. exact minmax_bounds. Qed.
+Print Assumptions C20_minmax_bounds.
+
 (* ---------- the hypotheses are satisfiable: the refutation witnesses of Refuted.v, under the repaired model ---------- *)
 Open Scope Z_scope.
 Definition ex_keys : list key := [[Some 3; Some 2]; [Some 3; Some 5]; [Some 4; Some 0]; [Some 4; Some 1]; [Some 4; None]].
@@ -180,4 +197,17 @@ Proof.
     unfold key_le in H1. simpl in H1. destruct H1 as [H1 | [H1 _]]; discriminate.
   - exists [Some 1]. split; [right; left; reflexivity | reflexivity].
   - eexists. split; [vm_compute; reflexivity|]. vm_compute. reflexivity.
+Qed.
+
+(* min-max: block (1,null)(3,7)(2,5), condition a >= 3 AND b < 6 has no matching row (pruned: canBeTrue = false would be
+   allowed) but a >= 2 AND b < 6 has one, and the mark says so; a = 9 is pruned *)
+Example C20_example_minmax :
+  let block : list key := [[Some 1; None]; [Some 3; Some 7]; [Some 2; Some 5]] in
+  mm_rect 2 block = [mkR (Fin 1) (Fin 3) true true; mkR (Fin 5) (Fin 7) true true] /\
+  (exists rpn, compile [true; true] (CAnd (CAtom 0 Cge 2) (CAtom 1 Clt 6)) = Some rpn /\
+               option_map can_t (check_in_range rpn (mm_rect 2 block)) = Some true) /\
+  (exists rpn, compile [true; true] (CAtom 0 Ceq 9) = Some rpn /\
+               option_map can_t (check_in_range rpn (mm_rect 2 block)) = Some false).
+Proof.
+  split; [vm_compute; reflexivity|]. split; eexists; (split; [vm_compute; reflexivity|]); vm_compute; reflexivity.
 Qed.
